@@ -10,6 +10,7 @@ import (
 	"pgregory.net/rapid"
 
 	"verif/h/bftscen"
+	bs "verif/h/bftsim"
 	"verif/h/ev"
 )
 
@@ -34,7 +35,7 @@ func TestC01Agreement(t *testing.T) {
 			return
 		}
 		if err := CheckHistory(res.S, false); err != nil {
-			rt.Fatalf("C01 VIOLATION: %v\ncase: %s\nschedule: %s", err, res.Header(), res.S.Descriptor())
+			rt.Fatalf("C01 VIOLATION: %v\ncase: %s\nschedule: %s", err, res.Header(), bs.Wrap(res.S.Descriptor()))
 		}
 		c.Done(res.Nontrivial())
 	})
